@@ -144,12 +144,12 @@ Definition canon_sub_prog := canon_prog Sbb.
 
 Definition addsub_ok (p : addsub_params) : bool :=
   (ap_blk p =? 5) && prog_eqb (ap_add_prog p) canon_add_prog
-  && prog_eqb (ap_sub_prog p) canon_sub_prog && cmpop_eqb (ap_add_len_cmp p) Clt.
+  && prog_eqb (ap_sub_prog p) canon_sub_prog && cmpop_eqb (ap_add_len_cmp p) Clt && ap_callsites p.
 
 Lemma addsub_ok_inv p : addsub_ok p = true ->
   ap_blk p = 5 /\ ap_add_prog p = canon_add_prog /\ ap_sub_prog p = canon_sub_prog /\ ap_add_len_cmp p = Clt.
 Proof.
-  unfold addsub_ok; rewrite !andb_true_iff; intros [[[H1 H2] H3] H4].
+  unfold addsub_ok; rewrite !andb_true_iff; intros [[[[H1 H2] H3] H4] _].
   apply Z.eqb_eq in H1; apply prog_eqb_eq in H2, H3.
   destruct (ap_add_len_cmp p); try discriminate; auto.
 Qed.
